@@ -46,6 +46,9 @@ func (m *noFailMonitor) AfterStep(rc *RunCtx, i int, st *Step, res *StepResult) 
 	if res.Err == nil {
 		return nil
 	}
+	if _, ex := rc.Excluded[st.C]; ex {
+		return nil // the server ended this client's session on its own; the SDK finds out by failing
+	}
 	faulted := st.Net != "" || st.DB != nil
 	cls := classify(res.Err)
 	if faulted && (cls == "net" || cls == "crash" || cls == "injected") {
